@@ -20,30 +20,6 @@ theorem assertMerkleRoot_ok_iff [DecidableEq α] (h : α → α → α) (hr : α
       cases m <;> simp
     · simp [h1]
 
-/-- the depth of a branch depends on the number of leaves only -/
-theorem branch_length_eq (h h' : α → α → α) : ∀ (n : Nat) (l l' : List α) (i i' : Nat), l.length ≤ n →
-    l.length = l'.length → (branch h l i).length = (branch h' l' i').length := by
-  intro n
-  induction n with
-  | zero =>
-    intro l l' i i' hl he
-    have e1 : l = [] := List.eq_nil_of_length_eq_zero (by omega)
-    have e2 : l' = [] := List.eq_nil_of_length_eq_zero (by omega)
-    subst e1 e2; simp [branch]
-  | succ k ih =>
-    intro l l' i i' hl he
-    match l, l', he with
-    | [], [], _ => simp [branch]
-    | [_], [_], _ => simp [branch]
-    | a :: b :: rest, a' :: b' :: rest', he =>
-      rw [branch, branch]
-      simp only [List.length_cons, Nat.add_right_cancel_iff]
-      apply ih
-      · have := nextLevel_length h (a :: b :: rest)
-        simp only [List.length_cons] at this hl ⊢
-        omega
-      · rw [nextLevel_length, nextLevel_length, he]
-
 /-- a header root commits to the transaction list (given their number): two lists of the same length
     valid under the same header root are equal, or a collision of the node hash is exhibited -/
 theorem root_commits [DecidableEq α] (h : α → α → α) (hr : α) (txids txids' : List α)
